@@ -10,38 +10,9 @@
 #ifndef VERIF_MC_ALLOC_ENV_H_
 #define VERIF_MC_ALLOC_ENV_H_
 
-#include <malloc.h>
-
-#include <atomic>
-#include <cstdint>
-#include <cstdlib>
-#include <cstring>
-#include <new>
+#include "mc/alloc_env_decl.h"
 
 namespace mc {
-
-struct AllocEnv {
-  size_t cap = size_t(64) << 20;
-  bool monitor = false;
-  int fill = -1;  // -1: leave as malloc returns it
-  // statistics (valid while monitor == true)
-  uint64_t requests = 0;
-  uint64_t largest = 0;
-  int64_t live = 0;
-  int64_t peak = 0;
-  uint64_t refused = 0;       // requests above cap
-  uint64_t refused_size = 0;  // size of the last refused request
-  void (*hook)(int is_delete, size_t size) = nullptr;
-  void reset_stats() {
-    requests = largest = refused = refused_size = 0;
-    live = peak = 0;
-  }
-};
-
-inline AllocEnv &alloc_env() {
-  static AllocEnv e;
-  return e;
-}
 
 inline void *env_alloc(size_t n, bool nothrow) {
   AllocEnv &e = alloc_env();
